@@ -117,6 +117,22 @@ def run(ck: Check, prog: Program) -> None:
         # ---- CTX-EXCLUDED / CTX-WINS -------------------------------------------------------------
         _ctx_rules(ck, prog, b)
     _bind_strict(ck, prog)
+    # ---- CTX-SOURCE: the context / positional settings bind() reads are those of THIS registration (instance attributes written by
+    #      the constructor from its own arguments), not state shared between registrations of the same function
+    from .wire import ctor_field_of_param
+    mci = prog.cls('pjrpc.server.dispatcher.Method')
+    fields = ctor_field_of_param(prog, mci)
+    for pname in ('context', 'positional', 'method'):
+        attr = fields.get(pname)
+        shadow = prog.find_method(mci, pname)
+        ok_src = attr == pname and shadow is None
+        ck.ob('CTX-SOURCE', f'Method.{pname} is the constructor argument of this registration', ok_src)
+        if not ok_src:
+            where = shadow.node.lineno if shadow is not None else mci.node.lineno
+            ck.finding('CTX-SOURCE', mci.qualname + '.__init__', f'Method.{pname} is not stored from the constructor argument', mci.module.rel, where,
+                       f'Method.{pname} is {"computed by a property/method" if shadow is not None else "not assigned from the constructor argument"}: bind() must use the '
+                       f'setting given when THIS method was registered; metadata kept on the function object is shared by every registration of '
+                       f'that function (the last one wins), so the context would be excluded/injected under another registration\'s name')
     # ---- RESULT-PASSTHRU ------------------------------------------------------------------------
     from .common import dispatcher_program
     prog = dispatcher_program(prog)
@@ -210,6 +226,31 @@ def _ctx_rules(ck: Check, prog: Program, b: FuncInfo) -> None:
     partials = [(n, c) for n in cfg.stmt_nodes() for c in calls_in(n) if dotted(c.func) in ('ft.partial', 'functools.partial', 'partial')]
     if not partials:
         raise AnalysisError(f'{b.qualname}: no functools.partial call found (the prepared call is not recognised)')
+    # BOUND-UNMODIFIED: the mapping validate_method returned is what the call is prepared with; after validation it may only
+    # receive the server context under the context name
+    from ..util import canon_dotted as _cd
+    vvar = list(assigned_names(vn))[0] if assigned_names(vn) else None
+    altered = []
+    if vvar is not None:
+        for n in cfg.stmt_nodes():
+            if n is vn or n.id not in cfg.reachable(vn):
+                continue
+            a = n.ast
+            if vvar in assigned_names(n):
+                altered.append((n.line, f'`{norm(a)[:80]}` rebuilds the validated arguments'))
+            if n.kind == 'stmt' and isinstance(a, ast.Assign) and isinstance(a.targets[0], ast.Subscript) and dotted(a.targets[0].value) == vvar and \
+                    _cd(b, a.targets[0].slice) != 'self.context':
+                altered.append((n.line, f'`{norm(a)[:80]}` writes another member into the validated arguments'))
+            if isinstance(a, ast.Delete) and any(dotted(getattr(t, 'value', t)) == vvar for t in a.targets):
+                altered.append((n.line, f'`{norm(a)[:80]}` removes a validated argument'))
+            for c in calls_in(n):
+                if isinstance(c.func, ast.Attribute) and dotted(c.func.value) == vvar and c.func.attr in ('pop', 'update', 'clear', 'setdefault', 'popitem'):
+                    altered.append((n.line, f'`{norm(c)[:80]}` alters the validated arguments'))
+    ck.ob('PARAMS-UNMODIFIED', f'{short(b.qualname)}: the validated arguments reach the prepared call unchanged (apart from the injected context)', not altered)
+    for line, why in altered:
+        ck.finding('PARAMS-UNMODIFIED', b.qualname, why[:70], b.module.rel, line,
+                   f'{why}: what the method receives is no longer what was validated (an explicit null is dropped and a default applies, a '
+                   f'required argument disappears, ...), so a conforming call is not executed with exactly its arguments')
     m_arg = dotted(vc.args[0]) if vc.args else None
     if not is_view:
         from .c17 import exclude_expr
@@ -448,6 +489,15 @@ def _bind_strict(ck: Check, prog: Program) -> None:
                 sv = st.targets[0].id
         if not bind_calls[0].args or dotted(bind_calls[0].args[0]) != sv:
             problems.append((vm.node.lineno, 'the signature handed to bind() is not the filtered signature'))
+    # the filtered signature keeps the remaining parameters AS THEY ARE (kind, default, annotation): only then does binding accept
+    # exactly what a direct Python call accepts
+    from .c17 import keep_formula
+    sgf = bv.methods.get('signature')
+    if sgf is not None:
+        forms = keep_formula(prog, sgf) or set()
+        for fm in sorted(x for x in forms if x.startswith('parameter-rewritten:')):
+            problems.append((sgf.node.lineno, f'signature() rewrites a kept parameter (`{fm.split(":", 1)[1]}`): the binder then accepts calls a direct Python call '
+                             f'cannot make (e.g. a keyword-only parameter filled from a positional list) or refuses ones it can'))
     # the filtered signature is a pure function of (method, exclude): a hand-rolled cache must key on both
     for sig in [m_ for m_ in (bv.methods.get('signature'), bv.methods.get('validate_method')) if m_ is not None]:
         ck.functions.add(sig.qualname)
